@@ -66,3 +66,7 @@ PENDING.pop("C11", None)
 _p("C16", "other",
    "Static clauses of 'failures are JaqalErrors with a position; no sticky state'. C16.1: exception-escape analysis over the call graph from the nine parse/execute entry points (explicit raise statements, handler coverage lexically and at every call site, sly dispatch of parser/lexer actions, self-calls refined to constructed classes): every class that can escape is a JaqalError or an ImportError. C16.2: the sly Lexer subclass overrides error() with an always-raising JaqalError body. C16.3: no dereference after a joined `is None` test. C16.5: no unbound names and no un-imported submodule uses in reachable functions. C16.7: every raise_error() is preceded by a set_pos(). C16.8: history-dependence anti-patterns. This rule set detects; it does not prove absence of implicit exceptions (TypeError/KeyError from dynamically typed values) nor termination.")
 PENDING.pop("C16", None)
+
+_p("C14", "other",
+   "Static necessary conditions of 'no program is accepted with a reference that cannot be honoured': every comparison of an index or slice bound with a register size that guards a raise in core/register.py has a matching lower-bound comparison on the same quantity (two-sidedness; the lexer's INT pattern is checked to admit a sign); duplicate-definition, unknown-identifier, unknown-gate, arity and validate-all checks dominate the constructions they protect (CFG must-pass-through); Parameter.validate is exhaustive over ParamType with reject-by-default branches; the subscript in build_array_item is applied only to indexable context values; precedence of gate sources in update_gates. Does not decide 'at the latest when the value becomes known' for all programs.")
+PENDING.pop("C14", None)
